@@ -234,6 +234,20 @@ pub fn run() -> i32 {
         run_box(&mut r, "T6: c=1 context / exception, W(I3,6)", t6, &w36);
         let ins = seg_items(); let outs = out_items();
         run_box(&mut r, "T7: sets with boundary members as the outermost item of a side, W(I4,5)", boundary_set_rules(&ins, &outs), &w45);
+        // T8 (= Q6 one segment longer): rewrites that make a segment equal to its neighbour. Environment-free rules look at no neighbour, so every segment is rewritten on its
+        // own whether or not the results are equal: inventories with pairs one feature apart (t/d/k/ɡ for [+voice], i/e/a for [-hi]) and with
+        // the IPA outputs themselves (t, i), on every word of up to 5 segments in every syllabification
+        {
+            let mut q6 = vec![];
+            for (i, o) in io_pairs(false) { q6.push(BasicRule { input: i.clone(), output: o.clone(), context: vec![], except: vec![] }); }
+            for i in [ipa("d"), ipa("k"), ipa("e"), It::Set(vec![ipa("t"), ipa("d")]), It::Set(vec![ipa("i"), ipa("e")])] { for o in out_items() { q6.push(BasicRule { input: i.clone(), output: o.clone(), context: vec![], except: vec![] }); } }
+            q6.push(BasicRule { input: It::Set(vec![ipa("t"), ipa("d")]), output: OutIt::Set(vec![OutIt::Ipa("d", seg("d")), OutIt::Ipa("t", seg("t"))]), context: vec![], except: vec![] });
+            q6.push(BasicRule { input: It::Set(vec![ipa("i"), ipa("e")]), output: OutIt::Set(vec![OutIt::Ipa("e", seg("e")), OutIt::Ipa("i", seg("i"))]), context: vec![], except: vec![] });
+            let inv_a: Vec<SegBits> = ["t", "d", "k", "a"].iter().map(|t| seg(t)).collect();
+            let inv_b: Vec<SegBits> = ["i", "e", "t", "ɡ"].iter().map(|t| seg(t)).collect();
+            let mut ws = word_space(&inv_a, 6); ws.extend(word_space(&inv_b, 6));
+            run_box(&mut r, "T8: environment-free rules on words where a rewrite makes a segment equal to its neighbour, W({t,d,k,a},6) + W({i,e,t,ɡ},6)", q6, &ws);
+        }
     }
     r.finish()
 }
